@@ -21,7 +21,7 @@ RULE = ('cases are histories of 2-6 encrypt/decrypt exchanges (PGPy->PGPy+refere
         'was decrypted by every recipient and by the other implementation; distinct = distinct (direction, recipient kinds, '
         'cipher, compression, body class) tuples sequences among non-trivial runs')
 TIERS = {"quick": {"runs": 5000, "budget_s": 90}, "thorough": {"runs": 200000, "budget_s": 1500}}
-PROBES = ('recipients>=3', 'mixed_key_and_passphrase', 'skesk_before_pkesk', 'two_enc_subkeys_one_key', 'supplied_session_key',
+PROBES = ('ref_ecdh_padded_to_40', 'recipients>=3', 'mixed_key_and_passphrase', 'skesk_before_pkesk', 'two_enc_subkeys_one_key', 'supplied_session_key',
           'signed_then_encrypted', 'rsa_recipient', 'ecdh_nist', 'ecdh_cv25519', 'ref_sed_legacy', 'ref_partial_lengths',
           'ref_skesk_direct_key', 'ref_skesk_wrap_cipher_differs', 'ref_s2k_simple', 'ref_s2k_salted', 'body_empty', 'body_big', 'armor_hop', 'reframe_hop',
           'marker_packet', 'encrypt_refused', 'from_file')
@@ -59,7 +59,7 @@ def generate(rng, tier):
             esks = []
             for kind, who in recips:
                 if kind == 'key':
-                    esks.append({'t': 'pk', 'key': who})
+                    esks.append({'t': 'pk', 'key': who, 'pad40': rng.random() < 0.4})
                 else:
                     esks.append({'t': 'sk', 'pass': who, 's2k': rng.choice([0, 1, 3, 3]), 'hash': rng.choice([8, 2, 10, 1, 11, 9]),
                                  'count': rng.choice([0, 16, 96, 200]), 'direct': rng.random() < 0.3,
@@ -330,7 +330,10 @@ def _ref_encrypt_step(pgpy, R, step, ctx, shapes):
             tgt = cand[(j + len(step['id'])) % len(cand)]
             if tgt.alg not in (rkeys.ECDH, rkeys.RSA_ES):
                 continue
-            out += encode_packet(1, renc.build_pkesk(tgt, cid, key, seed('pk%d' % j, 600)), 'old' if step['framing'] == 'old' else 'new')
+            if e.get('pad40') and tgt.alg == rkeys.ECDH:
+                ctx.probe('ref_ecdh_padded_to_40')
+            out += encode_packet(1, renc.build_pkesk(tgt, cid, key, seed('pk%d' % j, 600), ecdh_pad_to=40 if e.get('pad40') else None),
+                                 'old' if step['framing'] == 'old' else 'new')
         else:
             salt = seed('salt%d' % j, 8)
             if e['s2k'] == 0:
